@@ -181,6 +181,17 @@ def _pweights(P):
     raise Unsupported('product weighting %r' % w)
 
 
+_RP_VARIANT = []
+
+
+def realpart_variant():
+    """variant switch of finding realpart-complex-adjoint-domain, measured on its own replay input"""
+    if not _RP_VARIANT:
+        import odl
+        _RP_VARIANT.append(bool(odl.RealPart(odl.cn(1)).adjoint.domain == odl.rn(1)))
+    return _RP_VARIANT[0]
+
+
 def encode(op, mode):
     """Coq term of type oexpr T for an ODL operator object (fail closed)."""
     import odl
@@ -236,13 +247,15 @@ def encode(op, mode):
         re = t is D.RealPart
         if op.domain.is_real:
             return '(Leaf (%s %s))' % ('LRealR' if re else 'LImagR', W(op.domain))
-        return '(Leaf (%s %s))' % ('LRealC' if re else 'LImagC', W(op.range))
+        return '(Leaf (%s %s %s))' % ('LRealC' if re else 'LImagC', W(op.range), C.b(realpart_variant()))
     if t is D.ComplexEmbedding:
         if mode == 'C':
             raise Unsupported('ComplexEmbedding in complex mode')
         s = complex(op.scalar)
         rw = vec(gram(op.domain.real_space, 'Q'), 'Q')
-        return '(Leaf (%s %s %s %s))' % ('LEmbedR' if op.domain.is_real else 'LEmbedC', rw, C.q(s.real), C.q(s.imag))
+        if op.domain.is_real:
+            return '(Leaf (LEmbedR %s %s %s %s))' % (rw, C.q(s.real), C.q(s.imag), C.b(realpart_variant()))
+        return '(Leaf (LEmbedC %s %s %s))' % (rw, C.q(s.real), C.q(s.imag))
     if t is TO.MatrixOperator:
         import scipy.sparse
         M = op.matrix.toarray() if scipy.sparse.isspmatrix(op.matrix) else np.asarray(op.matrix)
@@ -448,8 +461,7 @@ def builtin_ops(rng, tier):
                 yield 'IdentityOperator', ck, odl.IdentityOperator(sp)
                 yield 'MultiplyOperator', ck, odl.MultiplyOperator(rvec(rng, sp))
                 yield 'InnerProductOperator', ck, odl.InnerProductOperator(rvec(rng, sp))
-                if not cplx:
-                    yield 'MultiplyOperator-field', ck, odl.MultiplyOperator(rvec(rng, sp), domain=sp.field)
+                yield 'MultiplyOperator-field', ck, odl.MultiplyOperator(rvec(rng, sp), domain=sp.field)
                 yield 'ZeroOperator', ck, odl.ZeroOperator(sp)
                 m = rng.randint(1, 4)
                 M = np.array([[float(rng.randint(-3, 3)) for _ in range(n)] for _ in range(m)])
@@ -672,7 +684,13 @@ def correspondence(rng, tier):
     global LAST_STATS
     stats = {}
     for cls, kind, op in builtin_ops(rng, tier):
-        mode, coq, info = make_case(rng, op)
+        try:
+            mode, coq, info = make_case(rng, op)
+        except Unsupported as e:
+            # only the recorded no-adjoint cases may be skipped (the probes report them)
+            if cls == 'MultiplyOperator-field' and kind.startswith('complex') and 'adjoint raised' in str(e):
+                continue
+            raise
         cs = csC if mode == 'C' else csQ
         desc = {'class': cls, 'space': kind, 'mode': mode, 'holds': info['holds'], 'op': repr(op)[:200]}
         cs.add(coq, desc, (cls, kind, C.digest(coq)) if info['nontrivial'] else None)
@@ -895,6 +913,8 @@ def probes(rng, tier):
             key = 'realpart-complex-adjoint-domain'
         elif clause == 'identity' and expected:
             key = expected[0]
+        elif clause == 'adjoint-raises' and cls == 'MultiplyOperator-field' and kind.startswith('complex'):
+            key = 'innerproduct-complex-double-adjoint-raises'
         elif clause == 'double-adjoint-raises' and _is_complex(op.domain) and \
                 ('InnerProductOperator' in repr(op) or 'FunctionalLeftVectorMult' in repr(op)):
             key = 'innerproduct-complex-double-adjoint-raises'
